@@ -56,5 +56,3 @@ impl Read for BufReader<File> {
     #[verifier::external_body]
     fn read_u64<B: ByteOrder>(&mut self) -> (r: Result<u64, IoError>) { unimplemented!() }
 }
-pub assume_specification<T: Default>[std::mem::take::<T>](dest: &mut T) -> (r: T)
-    ensures r == *old(dest), call_ensures(T::default, (), *final(dest));
